@@ -363,23 +363,71 @@ def replay(v):
             a = w["a"]
             return abs(fr[a] - afp[a]) > 1e-6 or abs(oc[a] - aop[a]) > 1e-6, "AFP/AOP[%d]=%r/%r oracle %r/%r" % (a, fr[a], oc[a], afp[a], aop[a])
         return False, "kind?"
-    # application level: compare both paths numerically on the real functions
-    llks, post, (fr, cn, oc) = _with_stub(m, arrays)
-    mode, mllk, gpm, spm, fr2, oc2 = _with_stub(m, stream)
-    idx = int(rnp.argmax(post))
+    # application level: run the REAL call_sample_genotypes with the model's likelihood table for both report sets
+    runs = {}
+    for rset in (REPORT_SETS[0], REPORT_SETS[c.get("report", 1)]):
+        runs[rset] = _real_app(c, m, F, farr, rset)
+    ref, res = runs[REPORT_SETS[0]], runs[REPORT_SETS[c.get("report", 1)]]
+    tol = 1e-5
     if kind == "gt-differs-without-tie":
-        mg = tuple(int(a) for a in mode)
-        return order[idx] != mg and abs(Jn[order[idx]] - Jn[mg]) > 1e-9 * tot, "array-path GT %s vs streaming GT %s" % (order[idx], mg)
+        return res["GT"] != ref["GT"] and abs(Jn[tuple(res["GT"])] - Jn[tuple(ref["GT"])]) > 1e-9 * tot, "GT %s with --report %s vs %s without" % (res["GT"], list(REPORT_SETS[c.get("report", 1)]), ref["GT"])
     if kind == "report-independence":
-        from mchap.calling import exact as rex
-        _, sp = rex.alternate_dosage_posteriors(rnp.array(order[idx]), post)
-        bad = abs(post[idx] - gpm) > 1e-5 or abs(sp.sum() - spm) > 1e-5 or rnp.abs(fr - fr2).max() > 1e-5 or rnp.abs(oc - oc2).max() > 1e-5
-        return bool(bad), "array path GPM/SPM=%r/%r AFP=%s ; streaming GPM/SPM=%r/%r AFP=%s" % (post[idx], sp.sum(), fr, gpm, spm, fr2)
+        bad = abs(res["GPM"] - ref["GPM"]) > tol or abs(res["SPM"] - ref["SPM"]) > tol
+        for k_ in ("AFP", "ACP", "AOP"):
+            if res[k_] is not None and ref[k_] is not None:
+                bad = bad or float(rnp.abs(rnp.asarray(res[k_]) - rnp.asarray(ref[k_])).max()) > tol
+        return bool(bad), "--report %s: GT=%s GPM=%.6f SPM=%.6f AFP=%s ; default: GT=%s GPM=%.6f SPM=%.6f AFP=%s (F=%r f=%s)" % (
+            list(REPORT_SETS[c.get("report", 1)]), res["GT"], res["GPM"], res["SPM"], None if res["AFP"] is None else rnp.round(res["AFP"], 5).tolist(),
+            ref["GT"], ref["GPM"], ref["SPM"], None if ref["AFP"] is None else rnp.round(ref["AFP"], 5).tolist(), F, f)
     if kind == "gp-vs-oracle":
-        return bool(max(abs(post[i] - Jn[g] / tot) for i, g in enumerate(order)) > 1e-5), "GP=%s" % post
+        gp = res["GP"]
+        return bool(max(abs(gp[i] - Jn[g] / tot) for i, g in enumerate(order)) > tol), "FORMAT GP=%s oracle=%s (F=%r f=%s)" % (rnp.round(gp, 5).tolist(), [round(Jn[g] / tot, 5) for g in order], F, f)
     if kind == "gp-length":
-        return len(post) != len(order), "len(GP)=%d" % len(post)
+        return len(res["GP"]) != len(order), "len(GP)=%d" % len(res["GP"])
     return False, "kind?"
+
+
+def _real_app(c, m, F, farr, report):
+    """the real mchap.application.call_exact.program.call_sample_genotypes; only the read likelihood is replaced by the model's table
+    (the jitted enumerators run as their py_func so that the table is visible to them)"""
+    import math
+    import warnings
+    from mchap.application import call_exact as rce, baseclass as rbc
+    from mchap.calling import exact as rex
+    import mchap.io.vcf.formatfields as FORMAT
+    import mchap.io.vcf.columns as COLUMN
+
+    P, A = c["P"], c["A"]
+    haps = rnp.arange(A).reshape(A, 1).astype(rnp.int8)
+    names = ("_call_posterior_mode", "_posterior_allele_frequencies", "_genotype_likelihoods")
+    saved = {n: getattr(rex, n) for n in names}
+    saved_llk, saved_mec = rex.log_likelihood, rce.minimum_error_correction
+    try:
+        for n in names:
+            setattr(rex, n, getattr(saved[n], "py_func", saved[n]))
+        rex.log_likelihood = lambda reads, genotype, read_counts=None: math.log(float(m.get(lname([int(r[0]) for r in genotype]), 1.0)))
+        rce.minimum_error_correction = lambda calls, hh: rnp.zeros(1)
+        prog = rce.program.__new__(rce.program)
+        prog.info_fields = []
+        base = [FORMAT.GT, FORMAT.GQ, FORMAT.GPM, FORMAT.SPM, FORMAT.SQ]
+        prog.format_fields = base + [getattr(FORMAT, r) for r in report]
+        fields = [FORMAT.GT, FORMAT.GQ, FORMAT.GPM, FORMAT.SPM, FORMAT.SQ, FORMAT.MCI, FORMAT.ACP, FORMAT.AFP, FORMAT.AOP, FORMAT.GP, FORMAT.GL, FORMAT.MEC, FORMAT.MECP]
+        freqs = farr if farr is not None else rnp.full(A, 1.0 / A)
+        data = rbc.LocusAssemblyData(
+            locus=_Locus(haps, freqs), samples=["s"], sample_bams={"s": "x.bam"}, sample_ploidy={"s": P}, sample_inbreeding={"s": F},
+            read_calls={"s": rnp.zeros((1, 1), dtype=int)}, read_dists={"s": None}, read_counts={"s": None},
+            infofields=[], formatfields=prog.format_fields,
+            columndata={COLUMN.REF: None, COLUMN.ALT: None, COLUMN.FILTER: []}, infodata={}, sampledata={f_: {} for f_ in fields})
+        with warnings.catch_warnings():
+            warnings.simplefilter("ignore")
+            out = prog.call_sample_genotypes(data)
+    finally:
+        for n in names:
+            setattr(rex, n, saved[n])
+        rex.log_likelihood, rce.minimum_error_correction = saved_llk, saved_mec
+    sd = out.sampledata
+    return dict(GT=tuple(int(a) for a in sd[FORMAT.GT]["s"]), GPM=float(sd[FORMAT.GPM]["s"]), SPM=float(sd[FORMAT.SPM]["s"]),
+                AFP=sd[FORMAT.AFP].get("s"), ACP=sd[FORMAT.ACP].get("s"), AOP=sd[FORMAT.AOP].get("s"), GP=sd[FORMAT.GP].get("s"))
 
 
 def validate(seed):
